@@ -630,6 +630,11 @@ def ser_run(case):
             if "scorers" in step:
                 a, b = step.get("analysis") or [[], []]
                 step["analysis"] = [list(a) + step["scorers"][0], list(b) + step["scorers"][1]]
+        if case["type"] == "wordlist" and case["mode"] == "valid" and steps and "text" in steps[-1] \
+                and loaded is not None:
+            # nothing was analysed in between: saving the loaded object writes the same file again
+            # (theorem C13_second_save_same_file); compared by bit 3
+            step["analysis"] = [[[0, list(steps[-1]["text"])]], [[0, list(step["text"])]]]
         steps.append(step)
         os.remove(path + ".tsv")
         if loaded is None:
@@ -1074,7 +1079,8 @@ def blk_run(case):
     wl.output("tsv", filename=path, ignore=[], prettify=False)
     lines = file_lines(path + ".tsv")
     res = {"taxa": list(wl.cols), "dst": [[str(F(x)) for x in r] for r in m],
-           "dst_text": _block(lines, "dst"), "sc_text": _block(lines, "scorer")}
+           "dst_text": _block(lines, "dst"), "sc_text": _block(lines, "scorer"),
+           "pre": pre_lines(lines, False)}             # the whole meta part the implementation wrote
     chars = sorted(case["chars"])
     idx = [case["chars"].index(c) for c in chars]
     res["chars"] = chars
@@ -1126,7 +1132,8 @@ class _Blk:
         sl = "None" if res["sc_load"] is None else "(Some [%s])" % "; ".join(
             "(%s, [%s])" % (S(c), ";".join(Q(F(x)) for x in v)) for c, v in res["sc_load"])
         return L.record("blk_case", [SL(res["taxa"]), _qm(res["dst"]), SL(res["dst_text"] or []), dl,
-                                     SL(res["chars"]), _qm(res["sc"]), SL(res["sc_text"] or []), sl])
+                                     SL(res["chars"]), _qm(res["sc"]), SL(res["sc_text"] or []), sl,
+                                     S("custom"), SL(res["pre"])])
 
     @staticmethod
     def nontrivial(case, res):
